@@ -1,6 +1,260 @@
 import TTV.Model.Result
 import TTV.Model.ResC04
 import TTV.Spec.C04
-/-! # C04 — run verdict and stop control (theorems: work in progress) -/
+import TTV.Lemmas.LeafAct
+/-! # C04 — run verdict and stop control (work in progress) -/
 namespace TTV.Props.C04
+open TTV.Result TTV.ResC04 TTV.Spec.C04 TTV.Lemmas.LeafAct
+set_option linter.unusedSimpArgs false
+
+/-! ## verdict -/
+def leafWs : LeafSt → Bool
+  | .sink _ s => s.ok
+  | .tt s => s.wasSuccessful
+  | .text s => s.tt.wasSuccessful
+  | .tbt s => s.tt.wasSuccessful
+
+mutual
+theorem ws_leaves : ∀ (s : Shape), s.noStream = true → ∀ (st : St s),
+    wasSuccessfulOf s st = (leaves s st).all leafWs
+  | .sink _, _, _ => by simp [wasSuccessfulOf, leaves, leafWs]
+  | .tt _, _, _ => by simp [wasSuccessfulOf, leaves, leafWs]
+  | .text _, _, _ => by simp [wasSuccessfulOf, leaves, leafWs]
+  | .tbt, _, _ => by simp [wasSuccessfulOf, leaves, leafWs]
+  | .etod c, h, (_, inner) => by
+      simp only [wasSuccessfulOf, leaves]; exact ws_leaves c (by simpa [Shape.noStream] using h) inner
+  | .deco c, h, st => by
+      simp only [wasSuccessfulOf, leaves]; exact ws_leaves c (by simpa [Shape.noStream] using h) st
+  | .tagger _ _ c, h, st => by
+      simp only [wasSuccessfulOf, leaves]; exact ws_leaves c (by simpa [Shape.noStream] using h) st
+  | .tfr c, h, (_, inner) => by
+      simp only [wasSuccessfulOf, leaves]; exact ws_leaves c (by simpa [Shape.noStream] using h) inner
+  | .multi cs, h, (_, inner) => by
+      simp only [wasSuccessfulOf, leaves]; exact ws_leavesL cs (by simpa [Shape.noStream] using h) inner
+  | .e2s _, h, _ => by simp [Shape.noStream] at h
+theorem ws_leavesL : ∀ (ss : List Shape), Shape.noStreamL ss = true → ∀ (st : StL ss),
+    (wasSuccessfulL ss st).all id = (leavesL ss st).all leafWs
+  | [], _, _ => rfl
+  | s :: ss, h, (x, xs) => by
+      simp only [Shape.noStreamL, Bool.and_eq_true] at h
+      simp only [wasSuccessfulL, leavesL, List.all_cons, List.all_append, id]
+      rw [ws_leaves s h.1 x, ws_leavesL ss h.2 xs]
+end
+
+/-- "an error, failure or unexpected success since the last `startTestRun`", per leaf (`none`: not a testtools result) -/
+def badAbs : LeafSt → Option Bool
+  | .sink _ _ => none
+  | .tt s => some (!s.wasSuccessful)
+  | .text s => some (!s.tt.wasSuccessful)
+  | .tbt s => some (!s.tt.wasSuccessful)
+
+def badAct (c : Call) (a : Option Bool) : Option Bool :=
+  match c with
+  | .startTestRun => a.map fun _ => false
+  | .add k _ _ => a.map (· || Kind.bad k)
+  | _ => a
+
+theorem tt_bad (s : TT) (c : Call) : some (!(ttStep s c).wasSuccessful) = badAct c (some (!s.wasSuccessful)) := by
+  cases c with
+  | add k t a => cases k <;> simp [ttStep, badAct, TT.wasSuccessful, Kind.bad, Call.logged]
+  | _ => simp [ttStep, badAct, TT.wasSuccessful, TT.reset, Call.logged]
+
+def badAction : Action (Option Bool) where
+  abs := badAbs
+  act := badAct
+  neutral := by intro c hc a; cases c <;> simp_all [Call.key, badAct]
+  leaf_sink := by intro f st c; cases c <;> simp [badAbs, badAct]
+  leaf_tt := by intro st c; exact tt_bad st c
+  leaf_text := by intro st c; cases c <;> simp only [badAbs, textStep] <;> exact tt_bad _ _
+  leaf_tbt := by intro st c; cases c <;> simp only [badAbs, tbtStep] <;> exact tt_bad _ _
+  capsOk := fun caps => caps.startRun
+  capsRun := fun _ h => h
+  degrade := by
+    intro caps _ k t x a
+    have hk : Kind.bad (Spec.C08.degradeKind caps k) = Kind.bad k := by
+      cases k <;> simp only [Spec.C08.degradeKind] <;> (try split) <;> rfl
+    simp [Spec.C08.degradeCall, badAct, hk]
+  tfrFree := false
+  startNeutral := by intro _ t a; rfl
+
+mutual
+theorem ok_of_own : ∀ (s : Shape), ownLeaves s = true → s.noStream = true → okShape badAction s = true
+  | .sink _, h, _ => by simp [ownLeaves] at h
+  | .tbt, h, _ => by simp [ownLeaves] at h
+  | .tt _, _, _ => rfl
+  | .text _, _, _ => rfl
+  | .etod c, h, hn => by
+      have h' : ownLeaves c = true := by simpa [ownLeaves] using h
+      have := ok_of_own c h' (by simpa [Shape.noStream] using hn)
+      simp only [okShape, okShapeG, Bool.and_eq_true] at this ⊢
+      refine ⟨?_, this⟩
+      cases c <;> simp_all [ownLeaves, caps, badAction]
+  | .deco c, h, hn => by
+      have := ok_of_own c (by simpa [ownLeaves] using h) (by simpa [Shape.noStream] using hn)
+      simpa [okShape, okShapeG] using this
+  | .tagger _ _ c, h, hn => by
+      have := ok_of_own c (by simpa [ownLeaves] using h) (by simpa [Shape.noStream] using hn)
+      simpa [okShape, okShapeG] using this
+  | .tfr c, h, hn => by
+      have := ok_of_own c (by simpa [ownLeaves] using h) (by simpa [Shape.noStream] using hn)
+      simpa [okShape, okShapeG, badAction] using this
+  | .multi cs, h, hn => by
+      have := ok_of_ownL cs (by simpa [ownLeaves] using h) (by simpa [Shape.noStream] using hn)
+      simpa [okShape, okShapeL, okShapeG] using this
+  | .e2s _, _, hn => by simp [Shape.noStream] at hn
+theorem ok_of_ownL : ∀ (ss : List Shape), ownLeavesL ss = true → Shape.noStreamL ss = true → okShapeL badAction ss = true
+  | [], _, _ => rfl
+  | s :: ss, h, hn => by
+      simp only [ownLeavesL, Bool.and_eq_true] at h
+      simp only [Shape.noStreamL, Bool.and_eq_true] at hn
+      have a := ok_of_own s h.1 hn.1
+      have b := ok_of_ownL ss h.2 hn.2
+      simp only [okShape, okShapeL, okShapeGL, Bool.and_eq_true] at a b ⊢
+      exact ⟨a, b⟩
+end
+
+/-- every leaf is a testtools result whose "bad since the last `startTestRun`" flag is `b` -/
+def AllBad (s : Shape) (st : St s) (b : Bool) : Prop := ∀ l ∈ leaves s st, badAbs l = some b
+
+theorem allBad_step (s : Shape) (hs : okShape badAction s = true) (st : St s) (b : Bool) (c : Call)
+    (h : AllBad s st b) :
+    AllBad s (step s st c) (match c with | .startTestRun => false | .add k _ _ => b || Kind.bad k | _ => b) := by
+  have := act_steps badAction s hs [c] st
+  simp only [leavesAbs, List.foldl_cons, List.foldl_nil] at this
+  intro l hl
+  have hm : badAbs l ∈ (leaves s (step s st c)).map badAbs := List.mem_map_of_mem hl
+  rw [show badAction.abs = badAbs from rfl] at this
+  rw [this] at hm
+  simp only [List.mem_map] at hm
+  obtain ⟨a, ⟨l0, hl0, rfl⟩, ha⟩ := hm
+  rw [← ha, h l0 hl0]
+  cases c <;> rfl
+
+theorem ws_of_allBad (s : Shape) (hn : s.noStream = true) (st : St s) (b : Bool) (h : AllBad s st b)
+    (hne : leaves s st ≠ []) : wasSuccessfulOf s st = !b := by
+  rw [ws_leaves s hn]
+  have : ∀ l ∈ leaves s st, leafWs l = !b := by
+    intro l hl
+    have := h l hl
+    cases l <;> simp_all [badAbs, leafWs]
+  cases hl : leaves s st with
+  | nil => exact absurd hl hne
+  | cons x xs =>
+    rw [hl] at this
+    cases b <;> simp_all
+
+theorem leaves_len_step (s : Shape) (hs : okShape badAction s = true) (st : St s) (c : Call) :
+    (leaves s (step s st c)).length = (leaves s st).length := by
+  have := congrArg List.length (act_steps badAction s hs [c] st)
+  simpa [leavesAbs] using this
+
+theorem verdict_states (s : Shape) (hs : okShape badAction s = true) (hn : s.noStream = true) :
+    ∀ (h : List Call) (st : St s) (b : Bool), AllBad s st b → leaves s st ≠ [] →
+    (states s st h).map (wasSuccessfulOf s) = verdicts b h
+  | [], _, _, _, _ => rfl
+  | c :: h, st, b, hb, hne => by
+      have hb' := allBad_step s hs st b c hb
+      have hne' : leaves s (step s st c) ≠ [] := by
+        intro h0
+        have := leaves_len_step s hs st c
+        rw [h0] at this
+        exact hne (List.length_eq_zero_iff.mp this.symm)
+      simp only [states, List.map_cons, verdicts]
+      rw [ws_of_allBad s hn _ _ hb' hne', verdict_states s hs hn h _ _ hb' hne']
+      cases c <;> rfl
+
+mutual
+theorem leaves_ne : ∀ (s : Shape), s.wf = true → ∀ (st : St s), leaves s st ≠ []
+  | .sink _, _, _ => by simp [leaves]
+  | .tt _, _, _ => by simp [leaves]
+  | .text _, _, _ => by simp [leaves]
+  | .tbt, _, _ => by simp [leaves]
+  | .etod c, h, (_, inner) => by
+      simp only [leaves]
+      cases c with
+      | sink f => simp [leaves]
+      | _ => exact leaves_ne _ (by simpa [Shape.wf] using h) inner
+  | .deco c, h, st => by simp only [leaves]; exact leaves_ne c (by simpa [Shape.wf] using h) st
+  | .tagger _ _ c, h, st => by simp only [leaves]; exact leaves_ne c (by simpa [Shape.wf] using h) st
+  | .tfr c, h, (_, inner) => by
+      simp only [leaves]
+      cases c with
+      | etod d => exact leaves_ne (.etod d) (by simpa [Shape.wf] using h) inner
+      | _ => simp [Shape.wf] at h
+  | .e2s c, h, (_, inner) => by
+      simp only [leaves]
+      cases c with
+      | etod d => exact leaves_ne (.etod d) (by simpa [Shape.wf] using h) inner
+      | _ => simp [Shape.wf] at h
+  | .multi cs, h, (_, inner) => by
+      simp only [leaves]
+      cases cs with
+      | nil => simp [Shape.wf] at h
+      | cons d ds =>
+        obtain ⟨x, xs⟩ := inner
+        simp only [leavesL]
+        cases d with
+        | etod e =>
+          have : (Shape.etod e).wf = true := by
+            simp only [Shape.wf, Shape.wfL, Bool.and_eq_true] at h; exact h.1
+          have := leaves_ne (.etod e) this x
+          simp [this]
+        | _ => simp [Shape.wf, Shape.wfL] at h
+end
+
+mutual
+theorem abs_init : ∀ (s : Shape), ownLeaves s = true → s.noStream = true →
+    ∀ a ∈ (leaves s (init s)).map badAbs, a = some false
+  | .sink _, h, _ => by simp [ownLeaves] at h
+  | .tbt, h, _ => by simp [ownLeaves] at h
+  | .tt _, _, _ => by simp [leaves, init, badAbs, TT.wasSuccessful]
+  | .text _, _, _ => by simp [leaves, init, badAbs, TT.wasSuccessful]
+  | .etod c, h, hn => by
+      simp only [leaves, init]; exact abs_init c (by simpa [ownLeaves] using h) (by simpa [Shape.noStream] using hn)
+  | .deco c, h, hn => by
+      simp only [leaves, init]; exact abs_init c (by simpa [ownLeaves] using h) (by simpa [Shape.noStream] using hn)
+  | .tagger _ _ c, h, hn => by
+      simp only [leaves, init]; exact abs_init c (by simpa [ownLeaves] using h) (by simpa [Shape.noStream] using hn)
+  | .tfr c, h, hn => by
+      simp only [leaves, init]; exact abs_init c (by simpa [ownLeaves] using h) (by simpa [Shape.noStream] using hn)
+  | .e2s _, _, hn => by simp [Shape.noStream] at hn
+  | .multi cs, h, hn => by
+      have ho : ownLeavesL cs = true := by simpa [ownLeaves] using h
+      have hn' : Shape.noStreamL cs = true := by simpa [Shape.noStream] using hn
+      have hk := ok_of_ownL cs ho hn'
+      simp only [leaves, init]
+      have e1 := act_restoreL badAction cs hk
+      have e2 := act_stepL badAction cs hk
+      rw [show badAction.abs = badAbs from rfl] at e1 e2
+      rw [e1, e2, e2, e2]
+      have key : ∀ (L : List (Option Bool)) (b : Bool), (∀ a ∈ L, a = some false) →
+          ∀ a ∈ L.map (badAction.act (.setFailfast b)), a = some false := by
+        intro L b hL a ha
+        obtain ⟨x, hx, rfl⟩ := List.mem_map.mp ha
+        rw [hL x hx]; rfl
+      exact key _ _ (key _ _ (key _ _ (abs_initL cs ho hn')))
+theorem abs_initL : ∀ (ss : List Shape), ownLeavesL ss = true → Shape.noStreamL ss = true →
+    ∀ a ∈ (leavesL ss (initL ss)).map badAbs, a = some false
+  | [], _, _ => by simp [leavesL]
+  | s :: ss, h, hn => by
+      simp only [ownLeavesL, Bool.and_eq_true] at h
+      simp only [Shape.noStreamL, Bool.and_eq_true] at hn
+      simp only [leavesL, initL, List.map_append, List.mem_append]
+      intro a ha
+      rcases ha with ha | ha
+      · exact abs_init s h.1 hn.1 a ha
+      · exact abs_initL ss h.2 hn.2 a ha
+end
+
+theorem allBad_init (s : Shape) (ho : ownLeaves s = true) (hn : s.noStream = true) : AllBad s (init s) false :=
+  fun l hl => abs_init s ho hn _ (List.mem_map_of_mem hl)
+
+/-- **C04 (verdict).**  On every graph of `ExtendedToOriginalDecorator`, `TestResultDecorator`, `Tagger`,
+`ThreadsafeForwardingResult`, `MultiTestResult` over `TestResult` / `TextTestResult` leaves, after every call of
+every history, `wasSuccessful()` is false exactly when an error, a failure or an unexpected success has been
+reported since the last `startTestRun` (`Spec.C04.verdicts`). -/
+theorem C04_verdict (s : Shape) (hw : s.wf = true) (ho : ownLeaves s = true) (hn : s.noStream = true)
+    (h : List Call) : (states s (init s) h).map (wasSuccessfulOf s) = verdicts false h :=
+  verdict_states s (ok_of_own s ho hn) hn h (init s) false (allBad_init s ho hn) (leaves_ne s hw _)
+
 end TTV.Props.C04
